@@ -4,7 +4,7 @@ import json
 
 CLAIMED = {
  "C01": dict(level="model_checking", engine="ring",
-   technique="explicit-state BFS to closure over the real ring buffer (transition function = implementation, replayed per state) against a VecDeque reference model; bounded-depth sweeps from every ring offset for native element types",
+   technique="explicit-state BFS to closure over the real ring buffer (transition function = implementation, replayed per state) against a VecDeque reference model; bounded-depth sweeps from every ring offset for native element types; operations include acquire and commit/consume as separate events and two live windows of the same kind",
    text="Every reachable (implementation state, model state) pair of the real circular buffer for capacities 1-12 is enumerated to closure and every operation's observable result is compared with a reference queue; native element types are swept from all wrap offsets to a fixed depth. This decides the property for all histories over the stated alphabet at those capacities, which tests sampling a few histories on a 4 MB buffer cannot.",
    note="Trusted: the reference model (VecDeque), the state-dump hook, the canonicalisation argument in DESIGN.md 3-E1. Assumes one producer and one consumer.", ref="DESIGN.md 3-E1, 5-C01"),
  "C02": dict(level="model_checking", engine="ring",
@@ -20,7 +20,7 @@ CLAIMED = {
    text="For every small combination of backlog, final commits and `need`, all interleavings with at most d deviations of a writer that commits and goes away against a reader that waits / polls eof (and the mirrored writer-waits case, and packet streams) are run on the real stream code; safety (never told 'never' with enough data or a live peer; nothing lost) and bounded liveness (told within one extra wait) are checked in every execution.",
    note="Trusted: as C03. Timeouts are scheduler choices: early (cost 1) or when nothing else can run (free).", ref="DESIGN.md 3-E2, 5-C04"),
  "C05": dict(level="model_checking", engine="mt",
-   technique="stateless model checking of the real MTGraph runner: deviation-bounded DFS over thread interleavings and timeout firings of small generated graphs (chains, tee, rate changers) over capacity-1/2 streams, all/several add orders, against a pure reference result",
+   technique="stateless model checking of the real MTGraph runner: deviation-bounded DFS over thread interleavings and timeout firings of small generated graphs (chains, tee, rate changers) over capacity-1/2 streams, all/several add orders, against a pure reference result; stages include the real FirFilter and StreamToPdu with a tail",
    text="Each generated graph (source of length 0..2cap+1, one library or harness stage, sink; tee to two sinks; 1- and 2-page streams; several/all add orders) is run on the real MTGraph::run under the controlled scheduler; every execution with at most d deviations must terminate (no deadlock, livelock or step-horizon) and leave every sink equal to the reference result computed by executable specifications.",
    note="Trusted: as C03, plus the executable specifications of the menu blocks (vcommon::specs). Graphs with more than 4 block threads and long sources are out of reach of exhaustive interleaving search.", ref="DESIGN.md 3-E2, 5-C05"),
  "C06": dict(level="model_checking", engine="graphx",
@@ -28,15 +28,15 @@ CLAIMED = {
    text="All programs of the family (about 17 000 in the quick tier) are executed on the real single-threaded runner with virtual time; run() must return Ok with every sink equal to the reference result, and calling every block again (a second run()) must move nothing: so run() returns only at quiescence, independent of add order, stream size, and of blocks that report a wait/EOF from a call in which they moved data.",
    note="Trusted: executable specifications of the menu blocks; activity counter hook for the quiescence test. Menu blocks are deterministic Kahn-style blocks.", ref="DESIGN.md 3-E4, 5-C06"),
  "C07": dict(level="model_checking", engine="mt",
-   technique="stateless model checking of both runners: deviation-bounded DFS with a canceller task whose cancel() lands between any two scheduling points, and a fault-injecting block failing on its k-th call at every position of a 3-chain",
+   technique="stateless model checking of both runners: deviation-bounded DFS with a canceller task whose cancel() lands between any two scheduling points, and a fault-injecting block failing on its k-th call at every position of a 3-chain; plus an output held by the application (never closed) and a check that no block thread outlives run()",
    text="For infinite and finite sources on Graph and MTGraph: every placement (up to d deviations) of cancel() must make run() return Ok with all threads joined and at most 2 further work() calls per block; a block failing on call k (k=1..3) at each of 3 positions must make run() return exactly that error - not panic, hang or Ok.",
    note="Trusted: as C03; the Instrumented wrapper block that counts calls and injects failures.", ref="DESIGN.md 3-E2, 5-C07"),
  "C08": dict(level="model_checking", engine="envx",
-   technique="bounded-exhaustive enumeration of environment-answer sequences (feed k / release k / nothing, then work()) around one real block, from several ring offsets and output fill levels, with a flush tail; differential oracle against the one-shot run",
+   technique="bounded-exhaustive enumeration of environment-answer sequences (feed k / release k / nothing, then work()) around one real block, from several ring offsets and output fill levels, with a flush tail; differential oracle against the one-shot run; each subject also enumerated after a warm-up prefix; a 'finish' action (all input delivered and closed while output still trickles); the runners' retirement rule is applied (a block that a runner would retire is not called again)",
    text="For every stream-processing block variant in the registry, every sequence of environment actions up to the horizon (drip-feeding 1, 2, q-1, q, q+1 samples; freeing 1, 2, q output slots; doing nothing) is executed on the real block over capacity-2 (fat samples) or pre-positioned native streams, then flushed; the concatenated output must be a prefix of, and after the flush equal to, the output of one-shot delivery on ample streams, bit for bit, with no panic.",
    note="Trusted: the harness ports (feed/observe/release), the stream-plan hook that makes small / pre-positioned streams, fixed test vectors per variant.", ref="DESIGN.md 3-E3, 5-C08"),
  "C09": dict(level="model_checking", engine="envx",
-   technique="same enumeration as C08 plus a 'satisfy exactly the named stream' action; trace oracle on every step (leaked windows, false/misdirected waits, idle Again, retirement after inputs end)",
+   technique="same enumeration as C08 plus a 'satisfy exactly the named stream' action; trace oracle on every step (leaked windows, false/misdirected waits, idle Again, retirement after inputs end); same warm-up prefixes, finish action and retirement rule as C08; two settle steps before the flush",
    text="Every step of every enumerated execution is judged: no stream window may outlive work(); a wait must name a stream that lacks what is asked, or else the following call must make progress or name another stream (checked with an action that gives the named stream exactly what it asked for and nothing else); three 'Again' in a row with zero stream activity and an untouched environment is an idle spin; once all inputs are closed and drained the verdict must be EOF or a wait on an ended input.",
    note="Trusted: activity counter and live-window registry hooks; StreamWait::verif_id to identify the named stream. Waits on a composite block's internal streams are not judged.", ref="DESIGN.md 3-E3, 5-C09"),
  "C10": dict(level="model_checking", engine="envx",
